@@ -172,14 +172,18 @@ CHECKS = {
         ref='DESIGN.md section 4 C14'),
     'C15': dict(
         category='proof',
-        text='Proof of fragment: one iteration of the on="enter" loop of walk (selected structurally from the real '
-             'source) is executed symbolically for an arbitrary stack top with the heap havocked at every yield - the '
+        text='Proof of fragment: one iteration of each of the three work-list loops of walk (on="enter", "leave", "both"; '
+             'selected structurally from the real source) is executed symbolically for an arbitrary stack top (an AST '
+             'to enter - None, dead or live - or, in leave/both mode, the FST of a node to leave) with the heap '
+             'havocked at every yield - the '
              'consumer may leave, replace or delete the node it was given and send() up to twice: a dead stack entry '
              'yields nothing; what is yielded is the .f just read from the popped AST; after a suspension children and '
              'scope helpers are computed from the re-read .a, a deleted node is not walked, send(False) suppresses and '
              'send(True) forces the walk of the children (by delegation to an unconditional nested walk when this walk '
-             'is restricted), children are pushed in the order the direction needs (16k path obligations). The whole-'
-             'history part (termination, no node twice, on="leave"/"both", scope helpers) is bounded: 12 small programs '
+             'is restricted), children are pushed in the order the direction needs; in leave/both mode a node deleted '
+             'while its children were processed is never yielded, every entered node is queued for its leaving event, '
+             'send(True) on leaving re-queues the node with its CURRENT children (40k path obligations). The whole-'
+             'history part (termination, no node twice, the first-node prefix, scope helpers) is bounded: 12 small programs '
              'x on x back x every step x 9 mutation actions x send in {None, True, False}, plus search() under '
              'mutation; final tree satisfies C01.',
         note=TB + 'Consumer model stated in evidence (assumptions). Liveness / termination over arbitrary '
